@@ -1,44 +1,160 @@
+"""Regenerates /verif/MANIFEST.json from the checks the worlds define.
+
+Run with /venv/bin/python from /verif. CLAIMED is the list of properties
+whose check is finished; everything else goes to not_applicable with its
+reason.
+"""
+
 import json
+import sys
+
+sys.path.insert(0, "/verif")
+from btcsim.checks import CHECKS  # noqa: E402
+
+CLAIMED = sys.argv[1].split(",") if len(sys.argv) > 1 else sorted(CHECKS)
+
 NA = {
- "C02": "pure function of (key, message, signature, bytes): no draw, state, stream, schedule or peer in the anchored code (dsa.sign draws nothing; grinding is a counter). Its backend facet is decided under C04 and its Signer-wipe / history facet under C20.",
- "C06": "pure string<->bytes codecs with no seam; the one environmental switch under them (hashes._RIPEMD160_IN_HASHLIB) is read once at import and cannot move at run time.",
- "C07": "equations and composition laws relating pure computations of the same arguments; the base58 decode cache and tweak-add dispatch under them are covered as shared state in C20 and as a dual path in C04.",
- "C08": "equivalence with Bitcoin Core needs an independent consensus model and a search over script programs (differential testing), not schedules or faults; backend/cache/thread independence of verdicts is covered by C04 and C20.",
- "C14": "descriptor parsing, checksum, derivation and index_of are pure functions of (text, index); the wallet ledger built on them is state and is decided under C20.",
- "C15": "a property over a program space (typing, compilation, read-back, satisfaction) with no environment in it; generating well-typed expressions is program synthesis, not fault or schedule search.",
+    "C02": "pure function of (key, message, signature, bytes): no draw, state, stream, schedule or peer in the anchored code (dsa.sign draws nothing; grinding is a counter). Its backend facet is decided under C04 and its Signer-wipe / history facet under C20.",
+    "C06": "pure string<->bytes codecs with no seam; the one environmental switch under them (hashes._RIPEMD160_IN_HASHLIB) is read once at import and cannot move at run time.",
+    "C07": "equations and composition laws relating pure computations of the same arguments; the base58 decode cache and tweak-add dispatch under them are covered as shared state in C20 and as a dual path in C04.",
+    "C08": "equivalence with Bitcoin Core needs an independent consensus model and a search over script programs (differential testing), not schedules or faults; backend/cache/thread independence of verdicts is covered by C04 and C20.",
+    "C14": "descriptor parsing, checksum, derivation and index_of are pure functions of (text, index); the wallet ledger built on them is state and is decided under C20.",
+    "C15": "a property over a program space (typing, compilation, read-back, satisfaction) with no environment in it; generating well-typed expressions is program synthesis, not fault or schedule search.",
 }
-checks=[]
-def add(pid, level, text, note, tech, ref):
-    checks.append({
-      "property_id": pid,
-      "quick_cmd": f"/venv/bin/python -m btcsim check {pid} --tier quick",
-      "thorough_cmd": f"/venv/bin/python -m btcsim check {pid} --tier thorough",
-      "evidence_file": f"/verif/evidence/{pid}.json",
-      "replay_cmd_template": "/venv/bin/python -m btcsim replay {path}",
-      "engine": "btcsim",
-      "level_claimed": {"category": level, "text": text, "design_ref": ref},
-      "level_note": note,
-      "technique": tech,
-    })
-add("C20","exploration",
-    "Seeded search over call histories (nonce / signer / wallet objects vs reference state machines, checked after every step), over cache/backend perturbation sequences (pure calls vs their quiescent baseline) and over thread interleavings (2-4 real threads under a baton scheduler with PCT / uniform / staggered strategies). Sampling, not enumeration: a clean batch is evidence, not proof.",
-    "Pre-emption at first-visit line boundaries (thorough: also every bytecode) of btclib frames; C calls atomic as under the GIL. Trusted: the reference models in btcsim (ledger dict, two-state machines), the sequential baseline as oracle for concurrent calls.",
-    "deterministic simulation: seeded histories vs reference state machines; baton-passed threads with PCT scheduling; fault injection on caches, backend switch, wordlist disk read",
-    "DESIGN.md section 3 (W8), section 4 (C20)")
-import os
-claimed={c["property_id"] for c in checks}
-all_ids=[json.loads(l)["id"] for l in open("/verif/properties.jsonl")]
-na=[]
-for pid in all_ids:
-    if pid in claimed: continue
-    na.append({"property_id": pid, "reason": NA.get(pid, "claimed in DESIGN.md; its world is not built yet in this revision of /verif (work in progress)")})
-m={
- "version":1,
- "setup_cmd":"/venv/bin/python -m btcsim setup",
- "hooks":{"guard":"BTCLIB_VERIF","enable":"no source hooks: every seam is reached through public API, parameters or run-time patching from the harness; checks import /repo's working tree directly (editable install)","baseline_off_cmd":"cd /repo && /venv/bin/python -m pytest -ra -q -p no:cacheprovider --timeout=900 --continue-on-collection-errors","source_commits":[],"add_only":True},
- "engines":[{"name":"btcsim","path":"/verif/btcsim","serves_properties":sorted(claimed),"kind_free_text":"pure-Python deterministic simulator: one recorded choice sequence per run (replay + shrinking), discrete-event courier, baton-passing thread scheduler, RNG/cache/backend/disk seams, reference models"}],
- "checks":checks,
- "not_applicable":na,
- "notes":"See DESIGN.md. Exit codes: 0 held, 1 VIOLATION, 2 harness error. known_findings.json lists fixed/known findings."
+
+TEXT = {
+    "C01": (
+        "Seeded search over (curve, operation) histories with every blinding draw behind the RNG seam (edge draws 0/1/n-2/n-1, the zero-divisor fallback), cache clears / shrinks / equal-curve twins, backend flips and seeded thread interleavings on shared tables; every answer is compared with a naive affine group law and pow(). Decides exactness under every draw, cache state, backend and schedule for the sampled inputs; the for-all over curves and scalars is sampled, not decided.",
+        "Trusted: btcsim/ref/ec.py (naive affine law, enumeration of toy curves), Python's pow. Toy primes <= 251 incl. 3, 5, 7; 27 catalogued curves; <= 40 ops per run.",
+        "deterministic simulation: RNG-seam fault injection on blinding draws, cache/backend perturbation, baton-passed threads; reference model = naive affine group law",
+        "DESIGN.md 3 (W1), 4 (C01)",
+    ),
+    "C03": (
+        "Seeded runs of signers, a relay that duplicates / reorders / corrupts exactly one member, and a batching verifier; aux and batch coefficients come from the RNG seam (uniform and edge). Signatures are compared byte for byte with a BIP340 transcription on secp256k1, verify_ with the reference verdict, batch_verify_ with the conjunction of singles for sizes 1..32 on both sides of the Bos-Coster switch.",
+        "Trusted: btcsim/ref/bip340.py over ref/ec.py. Invalid batches carry one independently wrong member (never correlated errors). Other curves: sign-then-verify and verdict laws only.",
+        "deterministic simulation: relay faults (dup, reorder, one corrupted member), RNG-seam edge draws for aux and batch coefficients; reference model = BIP340 transcription",
+        "DESIGN.md 3 (W2), 4 (C03)",
+    ),
+    "C04": (
+        "Twin execution of every dual-path API on valid and hostile inputs: arm A then arm B from fresh state, histories with the switch flipped between calls and objects built on one arm used on the other, and a simulated thread flipping the switch at a pre-emption point inside the call. The observable (value, verdict, exact exception class) must be identical.",
+        "Oracle is the other arm; no reference needed. Pre-emption at line boundaries of btclib frames. Known divergences are listed in known_findings.json by (api, input class).",
+        "deterministic simulation: differential twin execution under a moving backend switch, seeded histories and thread interleavings",
+        "DESIGN.md 3 (W3), 4 (C04)",
+    ),
+    "C05": (
+        "Per generated object (every p2p payload, tx, block, header, PSBT v0/v2, keys, signatures, envelopes) a systematic walk of fault positions: every segmentation class of the byte stream into the resumable Message.parse loop, truncation at every field boundary +-1, every length prefix re-encoded non-minimally, count / marker / flag bytes at boundary values, trailing garbage, torn writes and bit rot on a simulated disk. Fault-free: exactly-once in-order delivery, exact `missing`, stream position, object equality, sizes / ids from hashlib, JSON round trip, PSBT fixed point vs a reference map splitter. Faulty: refused or canonical.",
+        "Objects are sampled (field-wise generator with boundary values); fault positions are enumerated per object. Trusted: btcsim/ref/psbtmap.py, hashlib.",
+        "deterministic simulation: fault enumeration over stream segmentation and stored-byte corruption per generated object; reference model = sent-message list, BIP174 map splitter",
+        "DESIGN.md 3 (W4), 4 (C05)",
+    ),
+    "C09": (
+        "The cross-path clause only: along every simulated signing ceremony the digest via PrecomputedTxData, via psbt.ecdsa_sig_hash / taproot_sig_hash and via a PsbtView streamed from a simulated file (short reads, EIO on the n-th read, truncation) equals the digest computed directly, for every input and hash type in use; under file faults the view refuses or agrees.",
+        "Equality with the text of the legacy / BIP143 / BIP341 algorithms is NOT decided (one shared wrong digest passes).",
+        "deterministic simulation: file-fault injection under a streamed PSBT view inside a multi-party ceremony; oracle = direct computation",
+        "DESIGN.md 3 (W5), 4 (C09)",
+    ),
+    "C10": (
+        "Discrete-event simulation of build -> update -> sign (k cosigners on their own hosts and disks) -> combine -> finalize -> extract -> engine, under courier drop / duplicate / delay / corruption, cosigner crash and restart, retransmission; then committed-field tampering of the finished transaction against a commitment table; message signatures bound to their address. Closure, liveness within R rounds after faults stop, tamper rejection.",
+        "Oracle is the library's own engine (that is the property) plus the commitment table of DESIGN section 3. <= 4 inputs, <= 5 cosigners, trees <= depth 3, a fixed family of miniscript policies.",
+        "deterministic simulation: discrete-event courier faults, crash/restart, retransmission; tamper injection against a commitment table",
+        "DESIGN.md 3 (W5), 4 (C10)",
+    ),
+    "C11": (
+        "Seeded partitions of a signed PSBT's key-value pairs over 2-5 copies, combined under drawn permutations, bracketings and duplications and compared with a union model over a reference map splitter; role sequences (sign, combine, finalize, to_v0, to_v2, join) checked for unchanged operands, fresh results and unchanged unsigned transaction; 20+ byzantine edits of a signer's answer each refused before merge; PsbtView over a faulty simulated file equal to the parsed object or refusing.",
+        "Order independence asserted for non-conflicting, non-finalized operands only; tx_modifiable for order independence only. Trusted: btcsim/ref/psbtmap.py, psbtunion.py.",
+        "deterministic simulation: seeded operand partitions / orders / role histories vs a reference union model; byzantine-peer and file-fault injection",
+        "DESIGN.md 3 (W5), 4 (C11)",
+    ),
+    "C12": (
+        "Two clauses: (i) every control block the library produces (input_script_sig, Updater, Finalizer) proves its leaf against the output key the wallet handed out -- for the trees wallets use in the ceremony and for drawn trees up to the BIP341 depth limit of 128 (caterpillars, lopsided trees, repeated leaves, other leaf versions), on both backends and across a flip; script-path spends of anyone-can-spend leaves are accepted by the engine; output_prvkey opens the output key; (ii) a single bit flipped in transit in control block, leaf script, leaf version, parity or output key is answered False / refused.",
+        "That the output key IS BIP341's formula is sampled against a transcription (btcsim/ref/taproot.py), not decided.",
+        "deterministic simulation: in-transit bit-flip injection on taproot proofs inside the ceremony and over drawn tree shapes; oracle = the library's verifier and engine",
+        "DESIGN.md 3 (W5), 4 (C12), 10",
+    ),
+    "C13": (
+        "SLIP39 as a collection protocol: a dealer splits under a drawn configuration with the entropy source behind the RNG seam, shares travel through a courier with loss / reorder / duplication / word corruption, a recovery node recovers from exact-threshold selections in drawn orders; BIP39 / Electrum generation through the RNG seam in every shipped language with unicode re-normalisation in transit; seeds vs hashlib.pbkdf2_hmac; BIP85 vs HMAC-SHA512.",
+        "<= 40 shares per run, iteration exponent <= 1. Trusted: hashlib / hmac, a 5-line checksum reference.",
+        "deterministic simulation: courier faults on share distribution/collection, RNG-seam edge draws for entropy; oracle = the split secret and hashlib",
+        "DESIGN.md 3 (W7), 4 (C13)",
+    ),
+    "C16": (
+        "Discrete-event sessions of MuSig2 (free functions and BIP373 over PSBT), two-party schemes (ECDH, ElligatorSwift, ECIES, DLEQ, Pedersen, Borromean) and BIP352/375 silent payments, with every internal draw behind the RNG seam (edge draws), arrival reordering, duplication, delay, signer crash between rounds, backend flips between parties. Honest runs complete and agree; aggregates verify under ssa.verify_ and a BIP340 transcription; liveness within R retransmission periods after faults stop.",
+        "Trusted: btcsim/ref/bip340.py. Corruption only where the statement speaks of it.",
+        "deterministic simulation: discrete-event courier faults, crash/restart between rounds, RNG-seam edge draws; reference model = BIP340 transcription",
+        "DESIGN.md 3 (W6), 4 (C16)",
+    ),
+    "C17": (
+        "Simulated miners with skewed clocks, compact-block relay to peers with drawn pools (subset / superset / shuffle), a malicious relay (duplicated-tail mutation, wrong blocktxn, corrupted bytes), a BIP157/158 server and a light client, retargets at period boundaries; checked against reference merkle, GCS (SipHash + Golomb-Rice) and arith_uint256 models.",
+        "Trusted: btcsim/ref/merkle.py, gcs.py, arith256.py. 48-bit short-id collisions are not produced (reported as unreached probe).",
+        "deterministic simulation: discrete-event relay with byzantine-peer and corruption faults, clock skew; reference models for merkle, GCS, arith_uint256",
+        "DESIGN.md 3 (W9), 4 (C17)",
+    ),
+    "C18": (
+        "Accounting identities as invariants along every simulated ceremony: conservation, fee floor on the final vsize, fee == ceil(rate * vsize) on the priced size, dust rule, refusal of insufficient inputs, estimated_weight before signing >= weight after (with grinding and non-grinding signers, multisig up to 15 keys), size / weight / vsize identities.",
+        "Unit conversions and money-range refusals (pure arithmetic on one argument) are not decided. Trusted: btcsim/ref/fees.py.",
+        "deterministic simulation: invariants over the funded -> signed -> extracted pipeline of a multi-party ceremony under courier faults",
+        "DESIGN.md 3 (W5), 4 (C18)",
+    ),
+    "C19": (
+        "For every entry point a receiver calls on transmitted or stored data, the same systematic fault walk as C05 plus drawn bit flips, and hostile scripts behind valid commitments handed to the engine: only library exceptions escape, no over-read of the caller's stream, each call consumes / refuses / asks for more (no livelock), boolean verifiers answer; each call runs under a per-call CPU budget.",
+        "Parsers no party calls on a wire (BIP21, descriptor and miniscript text) are not covered. CPU budget via ITIMER_VIRTUAL.",
+        "deterministic simulation: fault enumeration (corruption / truncation / splicing at every position class) on every receiver entry point",
+        "DESIGN.md 3 (W4), 4 (C19)",
+    ),
+    "C20": (
+        "Seeded search over call histories (nonce / signer / wallet objects vs reference state machines, checked after every step), over cache / backend / object-identity perturbation sequences (pure calls vs their quiescent baseline) and over thread interleavings (2-4 real threads under a baton scheduler with PCT / uniform / staggered strategies). Sampling, not enumeration.",
+        "Pre-emption at first-visit line boundaries (thorough: also every bytecode) of btclib frames; C calls atomic as under the GIL. Trusted: the reference models in btcsim (ledger dict, two-state machines), the sequential baseline as oracle for concurrent calls.",
+        "deterministic simulation: seeded histories vs reference state machines; baton-passed threads with PCT scheduling; fault injection on caches, backend switch, object address reuse, wordlist disk read",
+        "DESIGN.md 3 (W8), 4 (C20), 10",
+    ),
 }
-json.dump(m,open("/verif/MANIFEST.json","w"),indent=1)
+
+checks = []
+for pid in sorted(CLAIMED):
+    if pid not in CHECKS:
+        continue
+    text, note, tech, ref = TEXT[pid]
+    checks.append(
+        {
+            "property_id": pid,
+            "quick_cmd": f"/venv/bin/python -m btcsim check {pid} --tier quick",
+            "thorough_cmd": f"/venv/bin/python -m btcsim check {pid} --tier thorough",
+            "evidence_file": f"/verif/evidence/{pid}.json",
+            "replay_cmd_template": "/venv/bin/python -m btcsim replay {path}",
+            "engine": "btcsim",
+            "level_claimed": {"category": str(CHECKS[pid]["level"]), "text": text, "design_ref": ref},
+            "level_note": note,
+            "technique": tech,
+        }
+    )
+claimed = {c["property_id"] for c in checks}
+all_ids = [json.loads(line)["id"] for line in open("/verif/properties.jsonl")]
+na = [
+    {"property_id": pid, "reason": NA.get(pid, "claimed in DESIGN.md; its check is still being built / triaged in this revision of /verif")}
+    for pid in all_ids
+    if pid not in claimed
+]
+manifest = {
+    "version": 1,
+    "setup_cmd": "/venv/bin/python -m btcsim setup",
+    "hooks": {
+        "guard": "BTCLIB_VERIF",
+        "enable": "no source hooks: every seam is reached through public API, parameters or run-time patching from the harness; checks import /repo's working tree directly (editable install)",
+        "baseline_off_cmd": "cd /repo && /venv/bin/python -m pytest -ra -q -p no:cacheprovider --timeout=900 --continue-on-collection-errors",
+        "source_commits": [],
+        "add_only": True,
+    },
+    "engines": [
+        {
+            "name": "btcsim",
+            "path": "/verif/btcsim",
+            "serves_properties": sorted(claimed),
+            "kind_free_text": "pure-Python deterministic simulator: one recorded choice sequence per run (replay + shrinking), discrete-event courier, baton-passing thread scheduler, RNG / cache / backend / disk seams, reference models",
+        }
+    ],
+    "checks": checks,
+    "not_applicable": na,
+    "notes": "See DESIGN.md (section 10 is the build log). Exit codes: 0 held, 1 VIOLATION (minimised, confirmed in a fresh interpreter), 2 harness error. known_findings.json lists fixed / known findings. /verif/seeded holds independently written breaking changes and DESIGN 10.4 says which check catches which.",
+}
+json.dump(manifest, open("/verif/MANIFEST.json", "w"), indent=1)
+print("claimed:", sorted(claimed))
